@@ -59,11 +59,12 @@ GEN = [
     cfg("call", ["quick"], CALL_Q, rej_sample=2),
     cfg("calldep", ["quick", "dev"], CALLDEP_Q, rej_sample=0),
     cfg("mix", ["quick"], MIX_Q, rej_sample=2),
-    cfg("mixpair", ["quick", "thorough", "dev"], MIXPAIR_Q, rej_sample=2, token="module"),
-    cfg("calldepT", ["thorough"], CALLDEP_T, shards=16),
+    cfg("mixpair", ["quick", "dev"], MIXPAIR_Q, rej_sample=2, token="module"),
+    cfg("mixpairX", ["thorough"], MIXPAIR_Q, shards=16, token="module"),
+    cfg("calldepX", ["thorough"], CALLDEP_Q, shards=8),
     cfg("poolT", ["thorough"], POOL_T, shards=16),
     cfg("callT", ["thorough"], CALL_T, shards=16),
-    cfg("mixT", ["thorough"], MIX_T, shards=16),
+    cfg("mixX", ["thorough"], MIX_Q, shards=16, chains=("eth", "bsc")),   # MIX_T (416k states) is model-checked only: its graph does not fit the replay shards' memory
 ]
 
 
